@@ -20,14 +20,24 @@ def layout_of(sc):
     return dict(fs=[int(fsim[n]) for n in order], fidx=[int(n) for n in order])
 
 
-def levels(sc):
-    """integer level depths per global cell for the default stretching (hc = 0, C = -1 + (k + 1/2)/N)."""
+CS_CHOICES = {1: [[[-1, 2]], [[-1, 4]], [[-3, 4]]],
+              2: [[[-3, 4], [-1, 4]], [[-7, 8], [-1, 8]], [[-5, 8], [-3, 8]]]}       # stretching curves as fractions, bottom level first
+
+
+def cs_of(sc):
+    """the stretching curve at the rho levels as fractions [num, den]; default C = -1 + (k + 1/2)/N"""
     N = sc["N"]
+    return sc.get("cs") or [[-(2 * N - 2 * k - 1), 2 * N] for k in range(N)]
+
+
+def levels(sc):
+    """integer level depths per global cell (hc = 0: z = h C)."""
+    cs = cs_of(sc)
     for row in sc["H"]:
         for h in row:
-            if any((h * (2 * N - 2 * k - 1)) % (2 * N) for k in range(N)):
-                raise ValueError(f"scenario generator bug: level depths of h = {h} with N = {N} are not integers")
-    return [[[-(h * (2 * N - 2 * k - 1)) // (2 * N) for k in range(N)] for h in row] for row in sc["H"]]
+            if any((h * num) % den for num, den in cs):
+                raise ValueError(f"scenario generator bug: level depths of h = {h} with C = {cs} are not integers")
+    return [[[(h * num) // den for num, den in cs] for h in row] for row in sc["H"]]
 
 
 def file_names(sc, nfiles):
@@ -60,7 +70,7 @@ def write_files(sc, work):
             W = _np.stack([((f + kk + ii + 2 * jj) % 5 - 2) / 64.0 for f in fnum[a:b]])
         name = os.path.join(work, fnames[n])
         make_roms(name, imax=imax, jmax=jmax, N=N, times=sc["ftimes"][a:b], mask=np.array(sc["M"], float),
-                  h=np.array(sc["H"], float), hc=0.0,
+                  h=np.array(sc["H"], float), hc=0.0, Cs_r=np.array([num / den for num, den in cs_of(sc)]),
                   dx=(np.array(sc["dxarr"], float) if sc.get("dxarr") else sc.get("dx", 128.0) * (2.0 if (n > 0 and sc.get("grid_variant_in_later_files")) else 1.0)),
                   dy=(np.array(sc["dyarr"], float) if sc.get("dyarr") else sc.get("dy")),
                   U=U, V=V, S=S, W=W, pack=((2.0 ** -10, 2.0 ** -9) if sc["pack"] else None),      # u and v packed with different scale factors
@@ -182,6 +192,7 @@ def margin_scenario(rng, n1=False):
         eff = [sub[0], sub[1] + (sc["imax"] if sub[1] < 0 else 0), sub[2], sub[3] + (sc["jmax"] if sub[3] < 0 else 0)]
     if n1:
         sc["N"] = 1
+        sc["cs"] = rng.choice(CS_CHOICES[1])
         sc["H"] = [[rng.choice([40, 80]) for _ in range(sc["imax"])] for _ in range(sc["jmax"])]
     sc["xq"], sc["yq"], sc["z"] = margin_probes(rng, eff, sc["imax"], sc["jmax"], 40, sc["H"])
     sc["kind"] = "margin"
@@ -245,7 +256,8 @@ def space_scenario(rng):
         eff = [sub[0], sub[1] + (imax if sub[1] < 0 else 0), sub[2], sub[3] + (jmax if sub[3] < 0 else 0)]
     xq, yq, z = probes(rng, eff, imax, jmax, 40, H, N)
     start, stop = (2 * dt, 0) if rev else (0, 2 * dt)
-    return dict(kind="space", dt=dt, imax=imax, jmax=jmax, N=N, ftimes=[0, 2 * dt], cuts=[], start=start, stop=stop, rev=rev,
+    cs = rng.choice(CS_CHOICES[N]) if N in CS_CHOICES else None        # other stretching curves than the uniform one
+    return dict(kind="space", dt=dt, imax=imax, jmax=jmax, N=N, cs=cs, ftimes=[0, 2 * dt], cuts=[], start=start, stop=stop, rev=rev,
                 H=H, M=M, fm=fm, pack=rng.random() < 0.4, hasscal=True, spack=rng.random() < 0.3, subgrid=sub,
                 xq=xq, yq=yq, z=z,
                 cls=dict(rev=rev, subgrid=sub is not None, land=any(0 in r for r in M), N=N))
